@@ -18,7 +18,9 @@ import (
 	"io"
 	"os"
 	"os/exec"
+	"strconv"
 	"strings"
+	"syscall"
 	"time"
 
 	"verifharness/hx"
@@ -108,8 +110,26 @@ func (pa *parent) stop() {
 	pa.p = nil
 }
 
-// exec runs one case in the worker. A dead or silent worker is a result of its own.
+// exec runs one case in the worker. A dead or silent worker is a result of its own. A worker that
+// goes silent *outside* the request watchdog (which runs inside the worker and reports real deadlocks
+// of the library with their stacks) is replaced and the case is tried once more: only a stall that
+// repeats is reported.
 func (pa *parent) exec(c *Case) CaseResult {
+	res := pa.exec1(c)
+	if res.Oracle == "deadlock" && strings.HasPrefix(res.What, "the worker did not answer") {
+		pa.run.Count("worker-stalled-outside-the-request-watchdog(case retried)")
+		first := res.What
+		res = pa.exec1(c)
+		if res.Oracle == "deadlock" && strings.HasPrefix(res.What, "the worker did not answer") {
+			res.What = "twice: " + res.What
+		} else {
+			pa.run.Note("a worker stalled once outside the request watchdog and the case passed on retry; first report: %.600s", first)
+		}
+	}
+	return res
+}
+
+func (pa *parent) exec1(c *Case) CaseResult {
 	if pa.p == nil {
 		if err := pa.start(); err != nil {
 			return CaseResult{Kind: "harness", Oracle: "harness", What: err.Error()}
@@ -152,13 +172,41 @@ func (pa *parent) exec(c *Case) CaseResult {
 			pa.restarts++
 		}
 		return res
-	case <-time.After(2*wd + 90*time.Second):
-		pa.p.cmd.Process.Kill()
-		pa.p.cmd.Wait()
+	case <-time.After(parentTimeout(wd)):
+		// ask the Go runtime for all stacks (SIGQUIT) so that the replay says where it hangs
+		pa.p.cmd.Process.Signal(syscall.SIGQUIT)
+		waited := make(chan struct{})
+		go func() { pa.p.cmd.Wait(); close(waited) }()
+		select {
+		case <-waited:
+		case <-time.After(10 * time.Second):
+			pa.p.cmd.Process.Kill()
+			<-waited
+		}
+		var keep []string
+		for _, blk := range strings.Split(pa.p.stderr.String(), "\n\n") {
+			if strings.Contains(blk, "ccbrown/api-fu") || strings.Contains(blk, "main.") {
+				if len(blk) > 1500 {
+					blk = blk[:1500] + " …"
+				}
+				keep = append(keep, blk)
+			}
+		}
+		msg := strings.Join(keep, "\n\n")
+		if len(msg) > 40000 {
+			msg = msg[:40000] + "\n…"
+		}
 		pa.p = nil
 		pa.restarts++
-		return CaseResult{Kind: "property", Oracle: "deadlock", What: "the worker did not answer (hang outside the request watchdog)"}
+		return CaseResult{Kind: "property", Oracle: "deadlock", What: "the worker did not answer (hang outside the request watchdog); stacks: " + msg}
 	}
+}
+
+func parentTimeout(wd time.Duration) time.Duration {
+	if v, err := strconv.Atoi(os.Getenv("C15_PARENT_TIMEOUT_S")); err == nil && v > 0 {
+		return time.Duration(v) * time.Second
+	}
+	return 2*wd + 90*time.Second
 }
 
 const (
